@@ -402,6 +402,7 @@ fn check_large(which: usize, n: usize, k: u32, seed: u64) -> Option<(String, Str
     let (r, pops) = match out {
         Outcome::Done(o) => o,
         Outcome::Panic(m) => return Some((format!("{} panic", head), ctx(format!("panicked: {}", m.chars().take(200).collect::<String>())))),
+        Outcome::Truncated => return Some((format!("{} does-not-finish", head), ctx("drew more than 4 million generator words".into()))),
         _ => return None,
     };
     if let Err(e) = r {
@@ -499,6 +500,65 @@ fn check_functional(n: usize, pmin: usize, pmax: usize, inf: bool, layout: u8) -
     }
 }
 
+/// The differential-evolution selections on populations of a thousand and more all-distinct individuals (linear-time version of
+/// the group rules): n groups of 2y+1, DEBest groups start with the best, DECurrentToBest groups with [current, best], the
+/// random members of a group are distinct individuals and never the current one.
+fn check_de_large(which: u8, y: u32, n: usize, seed: u64) -> Option<(String, String)> {
+    let s = match which {
+        0 => Sel::DERand(y),
+        1 => Sel::DEBest(y),
+        _ => Sel::DECurToBest(y),
+    };
+    let pop: Vec<TInd> = (0..n).map(|i| (i as u32, ((i * 7919) % n) as f64 * 0.25 + 1.0)).collect();
+    let cfg = Cfg::prefix(&[], 0, seed);
+    let (out, _) = tape::run_once(&cfg, &[], || run_sel(&s, &pop));
+    let head = format!("C11 op={} large-population", s.name());
+    let ctx = |w: String| format!("{:?} on {} individuals with all-distinct objective values, default generator stream of seed {}: {}", s, n, seed, w);
+    let (r, pops) = match out {
+        Outcome::Done(o) => o,
+        Outcome::Panic(m) => return Some((format!("{} panic", head), ctx(format!("panicked: {}", m.chars().take(200).collect::<String>())))),
+        Outcome::Truncated => return Some((format!("{} does-not-finish", head), ctx("drew more than 4 million generator words".into()))),
+        _ => return None,
+    };
+    if let Err(e) = r {
+        return Some((format!("{} error-on-valid-input", head), ctx(format!("returned Err: {}", e))));
+    }
+    let g = (2 * y + 1) as usize;
+    if pops.len() != 2 || pops[0].len() != n * g {
+        return Some((format!("{} count", head), ctx(format!("{} populations, {} individuals selected (expected {} groups of {})", pops.len(), pops.first().map(|p| p.len()).unwrap_or(0), n, g))));
+    }
+    let best_tag = pop.iter().min_by(|a, b| a.1.partial_cmp(&b.1).unwrap()).map(|i| i.0).unwrap();
+    for (gi, grp) in pops[0].chunks(g).enumerate() {
+        if let Some(m) = grp.iter().find(|m| (m.0 as usize) >= n || m.1 != Some(pop[m.0 as usize].1)) {
+            return Some((format!("{} foreign-individual", head), ctx(format!("group {} holds {:?}", gi, m))));
+        }
+        let rest: &[(u32, Option<f64>)] = match which {
+            1 => {
+                if grp[0].0 != best_tag {
+                    return Some((format!("{} group-base-not-best", head), ctx(format!("group {} = {:?}", gi, grp))));
+                }
+                &grp[1..]
+            }
+            2 => {
+                if grp[0].0 != gi as u32 || grp[1].0 != best_tag {
+                    return Some((format!("{} group-layout", head), ctx(format!("group {} = {:?}, expected [current, best, ...]", gi, grp))));
+                }
+                if grp[2..].iter().any(|m| m.0 == gi as u32) {
+                    return Some((format!("{} current-among-random", head), ctx(format!("group {} = {:?}", gi, grp))));
+                }
+                &grp[2..]
+            }
+            _ => grp,
+        };
+        let mut tags: Vec<u32> = rest.iter().map(|m| m.0).collect();
+        tags.sort();
+        if tags.windows(2).any(|w| w[0] == w[1]) {
+            return Some((format!("{} group-repetition", head), ctx(format!("group {} = {:?}: the random members must be distinct", gi, grp))));
+        }
+    }
+    None
+}
+
 fn populations(max_n: usize) -> Vec<Vec<TInd>> {
     let mut pops = vec![];
     for n in 0..=max_n {
@@ -580,6 +640,7 @@ fn check_pressure(s: &Sel, p: &[TInd], grid: usize, seed: u64) -> Option<(String
 pub fn run(rep: &mut Report) {
     let thorough = rep.tier == crate::engine::report::Tier::Thorough;
     rep.alpha("operators All, None, CloneSingle(k), FullyRandom(k), RandomWithoutRepetition(k), RouletteWheel(k, offset 0|0.5), StochasticUniversalSampling(k, offset 0|0.5), Tournament(k, size 1..n), LinearRank(k), ExponentialRank(k, 0.5), DERand/DEBest/DECurrentToBest(y = 1|2), DeterministicFitnessProportional(min,max) with k in 0..n+1");
+    rep.alpha("DERand / DEBest / DECurrentToBest (y = 1, 2) on 1100, 2501 and 4099 all-distinct individuals under 2500 / 500 (thorough 6000 / 1200) default generator streams each");
     rep.alpha("populations of 5000 and 70000 individuals through every operator; objective_bounds / proportional_weights / reverse_rank on 9000, 70000 (thorough 140000) individuals with the extremes placed around positions 2^12, 2^13 and 2^16");
     rep.alpha("populations: all sequences of length 0..N over objective grid {-1,0,1,+inf} with distinct tags (ties = different individuals with equal objective), positive-only populations over {2,3}, two larger populations for the DE selections");
     rep.alpha("environment: every generator word is a choice (default ChaCha stream word or one of the menu words), all tapes over the first D draws");
@@ -656,6 +717,30 @@ pub fn run(rep: &mut Report) {
         }
     }
 
+    // the DE selections on a thousand and more individuals, many seeds (rare coincidences of random draws)
+    let nseeds: u64 = if thorough { 6000 } else { 2500 };
+    let mut dej: Vec<(u8, u32, usize, u64)> = vec![];
+    for which in 0..3u8 {
+        for y in [1u32, 2] {
+            for n in [1100usize, 2501, 4099] {
+                for sd in 0..(if n == 1100 { nseeds } else { nseeds / 5 }) {
+                    dej.push((which, y, n, sd));
+                }
+            }
+        }
+    }
+    let res: Vec<Option<(String, String)>> = dej.par_iter().map(|(w, y, n, sd)| check_de_large(*w, *y, *n, seed + sd)).collect();
+    for ((w, y, n, sd), r) in dej.iter().zip(res) {
+        part.transitions += 1;
+        part.traces += 1;
+        if *sd == 0 {
+            part.states += 1;
+            part.outcome(format!("de{}:{}:{}", w, y, n));
+        }
+        if let Some((sg, d)) = r {
+            part.violate(sg, d.chars().take(700).collect::<String>(), json!({"kind": "de-large", "which": w, "y": y, "n": n, "seed": seed + sd}));
+        }
+    }
     // ... and the public building blocks on populations beyond the block sizes an implementation may use (2^12, 2^16)
     let mut jobs: Vec<(usize, usize, usize, bool, u8)> = vec![];
     for &n in &(if thorough { vec![9000usize, 70_000, 140_000] } else { vec![9000usize, 70_000] }) {
@@ -743,6 +828,10 @@ fn parse_sel(s: &str) -> Result<Sel, String> {
 }
 
 pub fn replay(case: &Value) -> Result<Vec<(String, String)>, String> {
+    if case["kind"].as_str() == Some("de-large") {
+        let u = |k: &str| case[k].as_u64().unwrap_or(0);
+        return Ok(check_de_large(u("which") as u8, u("y") as u32, u("n") as usize, u("seed")).into_iter().map(|(s, d)| (s, d.chars().take(700).collect::<String>())).collect());
+    }
     if case["kind"].as_str() == Some("functional") {
         let u = |k: &str| case[k].as_u64().unwrap_or(0) as usize;
         return Ok(check_functional(u("n"), u("pmin"), u("pmax"), case["inf"].as_bool().unwrap_or(false), u("layout") as u8).into_iter().collect());
